@@ -231,8 +231,17 @@ Fixpoint c06_snap_aux (c : config) (pre : list event) (t : list event) : bool :=
   end.
 Definition c06_holdsb (c : config) (t : list event) : bool := c06_snap_aux c [] t.
 
-(* after shutdown the map reports the state each runnable had when its Stop() returned (runnables do
-   not change state after Stop() returned): checked at snapshots taken after Run() returned *)
+(* the state runnable i had when its Stop() returned: the last Emit before the (first) StopRet i *)
+Fixpoint state_at_stopret (i : nat) (t : list event) (acc : st) : st :=
+  match t with
+  | [] => acc
+  | EEmit j x :: t' => state_at_stopret i t' (if Nat.eqb i j then x else acc)
+  | EStopRet j :: t' => if Nat.eqb i j then acc else state_at_stopret i t' acc
+  | _ :: t' => state_at_stopret i t' acc
+  end.
+
+(* after shutdown the map reports the state each runnable had when its Stop() returned - whatever it did
+   afterwards: checked at snapshots taken after Run() returned (shutdown timeout not configured to fire) *)
 Fixpoint c06_final_aux (c : config) (pre t : list event) : bool :=
   match t with
   | [] => true
@@ -241,7 +250,7 @@ Fixpoint c06_final_aux (c : config) (pre t : list event) : bool :=
      | ESnap o =>
        negb (sn_run_returned o) || shutdown_may_fire c ||
        forallb (fun i => negb (stateable (spec c i)) || negb (mem_ev (EStopRet i) pre)
-                         || opt_st_eqb (nth i (sn_smap o) None) (Some (true_state i pre 0)))
+                         || opt_st_eqb (nth i (sn_smap o) None) (Some (state_at_stopret i pre 0)))
                (seq 0 (nrun c))
      | _ => true
      end) && c06_final_aux c (pre ++ [e]) t'
